@@ -4,7 +4,16 @@
 #include <pthread.h>
 #include <dirent.h>
 
-static const struct { uint8_t b[1]; size_t n; } SK[3] = { { {0}, 0 }, { {'a'}, 1 }, { {'b'}, 1 } };
+/* key pools (three keys each, ascending by index): 0 = the tiny universe; 1 = keys of 4-5 bytes whose leading bytes span 0x00..0xff (word-wise or
+ * signed comparisons go wrong here, seed R6-C06); 2 = long keys in prefix relation; 3 = keys around the 0x7f/0x80 boundary */
+static const struct { uint8_t b[6]; size_t n; } SKP[4][3] = {
+	{ { {0}, 0 }, { {'a'}, 1 }, { {'b'}, 1 } },
+	{ { {0x00, 0x00, 0x00, 0x01}, 4 }, { {0x80, 0x00, 0x00, 0x02}, 4 }, { {0xff, 0xff, 0xff, 0xff, 0x00}, 5 } },
+	{ { {'a', 'b', 'c', 'd'}, 4 }, { {'a', 'b', 'c', 'd', 0x00}, 5 }, { {'a', 'b', 'c', 'e'}, 4 } },
+	{ { {0x7f, 0xff, 0xff, 0xff}, 4 }, { {0x7f, 0xff, 0xff, 0xff, 0xff}, 5 }, { {0x80, 0x00, 0x00, 0x00}, 4 } },
+};
+static int g_kp;
+#define SK SKP[g_kp]
 
 /* ---- mkstemp seam ---- */
 static pthread_mutex_t mk_mu = PTHREAD_MUTEX_INITIALIZER;
@@ -32,10 +41,11 @@ static void sum_merge(void *clos, const uint8_t *key, size_t kl, const uint8_t *
 	(void) clos; (void) key; (void) kl; char b[32]; int n = snprintf(b, sizeof b, "#%llu", (unsigned long long) (sum_parse(v0, l0) + sum_parse(v1, l1)));
 	*out = malloc(n); memcpy(*out, b, n); *outl = n;
 }
-typedef struct { int n; int key[8]; size_t M; int pool; int mode; /* 0 iterate, 1 sorter_write */ int nomerge; size_t vpad; int mstyle; /* 0 fold tree, 1 shrinking sum */ } scase;
+typedef struct { int kp; int n; int key[8]; size_t M; int pool; int mode; /* 0 iterate, 1 sorter_write */ int nomerge; size_t vpad; int mstyle; /* 0 fold tree, 1 shrinking sum */ } scase;
 static void render(char *b, size_t n, void *ctx) {
 	scase *c = ctx; int o = snprintf(b, n, "Z:%d:%zu:%d:%d:%zu:", c->pool, c->M, c->mode, c->nomerge + 2 * c->mstyle, c->vpad);
 	for (int i = 0; i < c->n; i++) o += snprintf(b + o, n - o, "%d", c->key[i]);
+	if (c->kp) snprintf(b + o, n - o, "%sk%d", c->n ? "" : "-", c->kp);
 }
 
 static size_t mkval(const scase *c, int i, uint8_t *out) {
@@ -105,13 +115,13 @@ static void run(scase *c) {
 	}
 	VH_COUNT("transitions", c->n);
 	/* obtain the result either through the iterator or through mtbl_sorter_write + independent decode */
-	struct { uint8_t k[2]; size_t kl; uint8_t *v; size_t vl; } out[8]; int nout = 0; bool toomany = false;
+	struct { uint8_t k[8]; size_t kl; uint8_t *v; size_t vl; } out[8]; int nout = 0; bool toomany = false;
 	struct mtbl_iter *it = NULL; int wfd = -1;
 	if (c->mode == 0) {
 		it = mtbl_sorter_iter(s);
 		if (!it) vh_violation("iter", "mtbl_sorter_iter returned NULL");
 		const uint8_t *k, *v; size_t kl, vl;
-		while (it && mtbl_iter_next(it, &k, &kl, &v, &vl) == mtbl_res_success) { if (nout == 8 || kl > 2) { toomany = true; break; } memcpy(out[nout].k, k, kl); out[nout].kl = kl; out[nout].v = malloc(vl + 1); memcpy(out[nout].v, v, vl); out[nout].vl = vl; nout++; }
+		while (it && mtbl_iter_next(it, &k, &kl, &v, &vl) == mtbl_res_success) { if (nout == 8 || kl > 8) { toomany = true; break; } memcpy(out[nout].k, k, kl); out[nout].kl = kl; out[nout].v = malloc(vl + 1); memcpy(out[nout].v, v, vl); out[nout].vl = vl; nout++; }
 		/* once iteration has begun: add and write are refused */
 		if (it) {
 			if (mtbl_sorter_add(s, (const uint8_t *) "zz", 2, (const uint8_t *) "late", 4) != mtbl_res_failure) vh_violation("add-after-iter", "mtbl_sorter_add succeeded after iteration began");
@@ -133,7 +143,7 @@ static void run(scase *c) {
 		size_t fl; uint8_t *fb = tbl_slurp(wfd, &fl); ic_file f;
 		if (ic_decode(fb, fl, &f)) vh_violation("write", "file written by mtbl_sorter_write does not decode: %s", f.err);
 		else {
-			for (size_t b = 0; b < f.nblocks; b++) for (size_t i = 0; i < f.blocks[b].n; i++) { const ic_ent *e = &f.blocks[b].e[i]; if (nout == 8 || e->klen > 2) { toomany = true; break; } memcpy(out[nout].k, e->key, e->klen); out[nout].kl = e->klen; out[nout].v = malloc(e->vlen + 1); memcpy(out[nout].v, e->val, e->vlen); out[nout].vl = e->vlen; nout++; }
+			for (size_t b = 0; b < f.nblocks; b++) for (size_t i = 0; i < f.blocks[b].n; i++) { const ic_ent *e = &f.blocks[b].e[i]; if (nout == 8 || e->klen > 8) { toomany = true; break; } memcpy(out[nout].k, e->key, e->klen); out[nout].kl = e->klen; out[nout].v = malloc(e->vlen + 1); memcpy(out[nout].v, e->val, e->vlen); out[nout].vl = e->vlen; nout++; }
 			ic_free(&f);
 		}
 		free(fb); close(wfd);
@@ -178,7 +188,9 @@ int main(int argc, char **argv) {
 		char ks[32] = "";
 		if (sscanf(vh_case_arg, "Z:%d:%zu:%d:%d:%zu:%31s", &c.pool, &c.M, &c.mode, &c.nomerge, &c.vpad, ks) < 5) return 2;
 		c.mstyle = c.nomerge / 2; c.nomerge %= 2;
+		{ char *kq = strchr(ks, 'k'); if (kq) { c.kp = atoi(kq + 1); *kq = 0; if (kq > ks && kq[-1] == '-') kq[-1] = 0; } }
 		c.n = (int) strlen(ks); for (int i = 0; i < c.n; i++) c.key[i] = ks[i] - '0';
+		g_kp = c.kp;
 		run(&c);
 	} else {
 		const char *mode = vh_arg(0, "seq");
@@ -187,8 +199,11 @@ int main(int argc, char **argv) {
 			int pool = !strcmp(mode, "pool");
 			int maxn = pool ? (vh_thorough ? 5 : 4) : (vh_thorough ? 9 : 6);
 			static const int POOLS[] = { 1, 2, 8 };
+			for (int kp = 0; kp < 4; kp++)
 			for (int pi = 0; pi < (pool ? 3 : 1); pi++)
-			for (int n = 0; n <= maxn; n++) {
+			for (int n = 0; n <= (kp ? (pool ? 3 : (vh_thorough ? 6 : 4)) : maxn); n++) {
+				if (kp && n == 0) continue;
+				c.kp = g_kp = kp;
 				int total = 1; for (int i = 0; i < n; i++) total *= 3;
 				for (int code = 0; code < total; code++) {
 					if (!vh_mine(idx++)) continue;
